@@ -695,18 +695,27 @@ def run_digits(case):
             if list(got) != [0, 0] + digits:
                 return bad(f"big_endian_int_to_bits({v}, bit_count={n + 2}) = {got!r}", kind="int_to_bits")
         # classical data store: the same digits recorded as a measurement of qids with these dimensions
-        if n:
+        # (digits are in MEASUREMENT order whatever the sort order of the measured qids: sorted, reversed and rotated labels)
+        qid_orders = [("sorted", qids)]
+        if n >= 2:
+            qid_orders.append(("reversed", [cirq.LineQid(n - 1 - i, dimension=b) for i, b in enumerate(bases)]))
+            qid_orders.append(("rotated", [cirq.LineQid((i + 1) % n, dimension=b) for i, b in enumerate(bases)]))
+        for oname, qids_o in qid_orders if n else ():
             store = cirq.ClassicalDataDictionaryStore()
             other = [(d + 1) % b for d, b in zip(digits, bases)]
-            store.record_measurement(mkey, other, qids)
-            store.record_measurement(mkey, digits, qids)
+            store.record_measurement(mkey, other, qids_o)
+            store.record_measurement(mkey, digits, qids_o)
             if tuple(store.get_digits(mkey)) != tuple(digits) or tuple(store.get_digits(mkey, 0)) != tuple(other) or tuple(store.get_digits(mkey, 1)) != tuple(digits):
-                return bad(f"ClassicalDataDictionaryStore.get_digits after recording {other} then {digits}: {store.get_digits(mkey, 0)}, {store.get_digits(mkey)}", kind="store")
-            if store.get_int(mkey) != v or store.get_int(mkey, 0) != ref_int(other, bases) or store.get_int(mkey, -1) != v:
-                return bad(f"ClassicalDataDictionaryStore.get_int for digits {digits} dims {list(bases)} = {store.get_int(mkey)}, expected {v}; first record {other} -> {store.get_int(mkey, 0)}", kind="store")
+                return bad(f"ClassicalDataDictionaryStore.get_digits after recording {other} then {digits} (qid labels {oname}): {store.get_digits(mkey, 0)}, {store.get_digits(mkey)}", kind="store")
+            try:
+                got_ints = (store.get_int(mkey), store.get_int(mkey, 0), store.get_int(mkey, -1))
+            except ValueError as e:
+                return bad(f"ClassicalDataDictionaryStore.get_int for digits {digits} dims {list(bases)} measured on {qids_o} ({oname} labels) raised ValueError: {e}", kind="store")
+            if got_ints != (v, ref_int(other, bases), v):
+                return bad(f"ClassicalDataDictionaryStore.get_int for digits {digits} dims {list(bases)} measured on {qids_o} ({oname} labels) = {got_ints[0]}, expected {v}; first record {other} -> {got_ints[1]}", kind="store")
             c2 = store.copy()
             if c2.get_int(mkey) != v or c2 != store:
-                return bad(f"ClassicalDataDictionaryStore.copy() differs for digits {digits}", kind="store")
+                return bad(f"ClassicalDataDictionaryStore.copy() differs for digits {digits} ({oname} labels)", kind="store")
     return good(nontrivial=n >= 2, digit_strings=cnt)
 
 
